@@ -247,7 +247,13 @@ def _impl_worker(args):
                      % (type(e).__name__, where, repr(e)[:300])], True
             return idx, None, ['HARNESS-EXCEPTION ' + repr(e) + '\n' + traceback.format_exc()[-1500:]], False
         obs = canon(obs)
-        fails = list(mod.oracle(inp, obs))
+        try:
+            fails = list(mod.oracle(inp, obs))
+        except Exception as e:
+            # the oracle reads what the library returned; when it cannot (an array of another shape than the labels
+            # promise, a missing entry ...) the observation itself is malformed - on the unchanged tree this never happens
+            fails = ['observation-unreadable: the oracle could not evaluate what the library returned (%s: %s)'
+                     % (type(e).__name__, str(e)[:200])]
         nontriv = bool(mod.nontrivial(inp, obs)) if hasattr(mod, 'nontrivial') else True
         return idx, obs, fails, nontriv
     finally:
